@@ -113,7 +113,8 @@ CLASS = {'AJobLost': 'job-lost', 'AJobDuplicated': 'job-duplicated', 'AJobIncomp
          'AExtraActivity': 'undefined-break-reload-activity', 'AReload': 'reload-not-a-distinct-defined-reload-of-the-shift',
          'ABreak': 'break-not-a-distinct-defined-break-of-the-shift',
          'AJobMixedOrder': 'pickup-after-delivery-replacement-or-service-of-the-same-job',
-         'ARequiredBreak': 'break-not-a-distinct-required-break-of-the-shift'}
+         'ARequiredBreak': 'break-not-a-distinct-required-break-of-the-shift',
+         'AClusterMember': 'clustered-activity-of-a-job-that-cannot-be-clustered'}
 
 
 def _violations(c, s, items):
